@@ -610,3 +610,48 @@ func (in *Interp) b64Decode(s *Term) Value {
 	in.memo[key] = r
 	return r
 }
+
+// ---- strings.Builder internals that use unsafe; number parsing/formatting as uninterpreted functions ----
+func init() {
+	extraStubs = append(extraStubs, func(e *Engine) {
+		e.Stubs["(*strings.Builder).copyCheck"] = func(in *Interp, fn *ssa.Function, args []Value) (Value, bool) { return nil, true }
+		e.Stubs["(*strings.Builder).String"] = func(in *Interp, fn *ssa.Function, args []Value) (Value, bool) {
+			p := args[0].(*Value)
+			st := (*p).(Struct) // addr *Builder; buf []byte
+			return in.bytesToStr(in.force(st[1])), true
+		}
+		e.Stubs["(*strings.Builder).Grow"] = func(in *Interp, fn *ssa.Function, args []Value) (Value, bool) { return nil, true }
+		e.Stubs["strconv.ParseFloat"] = func(in *Interp, fn *ssa.Function, args []Value) (Value, bool) {
+			s := args[0].(*Term)
+			ok := in.noteUF(in.tb.UF("strconv.parsesAsFloat", SortBool, s))
+			if !in.Branch(ok) {
+				return Tuple{Float{in.tb.BV(64, 0)}, in.NewError(in.tb.Str("strconv.ParseFloat: invalid syntax"))}, true
+			}
+			return Tuple{Float{in.noteUF(in.tb.UF("strconv.floatBits", BVSort(64), s))}, Iface{}}, true
+		}
+		e.Stubs["strconv.FormatFloat"] = func(in *Interp, fn *ssa.Function, args []Value) (Value, bool) {
+			f := args[0].(Float)
+			return in.noteUF(in.tb.UF("strconv.formatFloat", SortStr, f.B, args[1].(*Term), args[2].(*Term))), true
+		}
+	})
+}
+
+func init() {
+	extraStubs = append(extraStubs, func(e *Engine) {
+		id := func(in *Interp, fn *ssa.Function, args []Value) (Value, bool) { return args[0], true }
+		e.Stubs["internal/stringslite.Clone"] = id
+		e.Stubs["strings.Clone"] = id
+		e.Stubs["strconv.cloneString"] = id
+	})
+}
+
+func init() {
+	extraStubs = append(extraStubs, func(e *Engine) {
+		e.Stubs["math.Float64bits"] = func(in *Interp, fn *ssa.Function, args []Value) (Value, bool) {
+			return args[0].(Float).B, true
+		}
+		e.Stubs["math.Float64frombits"] = func(in *Interp, fn *ssa.Function, args []Value) (Value, bool) {
+			return Float{args[0].(*Term)}, true
+		}
+	})
+}
